@@ -256,9 +256,15 @@ def ceil_instant(inst):
 def instant_minus_instant(i1, i2):
     return Quantity((i1.dt-i2.dt).total_seconds(), SECONDS)
 
+def seconds_to_timedelta(seconds):
+    if isinstance(seconds, frac):
+        # timedelta() doesn't accept fractions.
+        return timedelta(seconds=seconds.numerator) / seconds.denominator
+    return timedelta(seconds=seconds)
+
 def instant_plus_quantity(inst, q):
     validate_time(q)
-    delta = timedelta(seconds=q.mag)
+    delta = seconds_to_timedelta(q.mag)
     return Instant(inst.dt + delta)
 
 def instant_plus_int(inst, i):
@@ -267,7 +273,7 @@ def instant_plus_int(inst, i):
 
 def instant_minus_quantity(inst, q):
     validate_time(q)
-    delta = timedelta(seconds=q.mag)
+    delta = seconds_to_timedelta(q.mag)
     return Instant(inst.dt - delta)
 
 def instant_minus_int(inst, i):
